@@ -54,7 +54,10 @@ def handle (op : String) (args : List String) : String :=
         | none =>
           match UOB.nbLL S A B with
           | some s => "ok 3 " ++ toString s ++ " " ++ " ".intercalate (UOB.coreOpsNB s A B)
-          | none => "ok 0"
+          | none =>
+            match UOB.contLL S A B with
+            | some s => "ok 4 " ++ toString s ++ " " ++ " ".intercalate (UOB.coreOpsCont s A B)
+            | none => "ok 0"
   | _, _ => "err BadOp"
 
 end LyModel.Diff.Drv
